@@ -172,6 +172,9 @@ def gen_cases(tier, seed):
         seq = [rng.choice(CMDS) for _ in range(L)]
         if rng.random() < 0.15:
             seq.insert(rng.randint(0, len(seq)), "watch a")      # released-at-end check only
+            if rng.random() < 0.5:
+                # nothing de-duplicates registrations: the same key watched again (and another key) must be released as well
+                seq.insert(rng.randint(0, len(seq)), rng.choice(["watch a", "watch a", "watch b"]))
         dist["len_hist"][L] = dist["len_hist"].get(L, 0) + 1
         cases.append(("r%d" % i, ["P"], mk(seq, rng)))
     dist["random"] = n
@@ -180,6 +183,8 @@ def gen_cases(tier, seed):
         seq = [rng.choice(CMDS) for _ in range(rng.randint(1, 6))]
         if rng.random() < 0.15:
             seq.insert(rng.randint(0, len(seq)), "watch a")
+            if rng.random() < 0.5:
+                seq.insert(rng.randint(0, len(seq)), rng.choice(["watch a", "watch a", "watch b"]))
         cases.append(("t%d" % i, ["P"], net_mk(seq, rng)))
     dist["transport"] = nt
     ne = {"quick": 24, "thorough": 300, "search": 12}[tier]
